@@ -67,4 +67,7 @@ def index {α : Type} (xs : List α) (i : Nat) : Except ErrKind α :=
   | some x => .ok x
   | Option.none => .error .index
 
+/-- `range(n)` as the list a `for` loop runs over: empty for `n ≤ 0` -/
+def pyRange (n : Int) : List Nat := List.range n.toNat
+
 end Barril.PyRt
